@@ -5,6 +5,8 @@ from __future__ import annotations
 import itertools
 
 from symx.oracle import AND, EQ, IMPLIES, ITE, NOT, OR, cumsum0
+import numpy as np
+
 from symx.runner import Instance
 from symx.world import SHIM_LIST
 
@@ -374,7 +376,7 @@ def inst_through_transpose(axes):
         specs = tuple(E.int(f"spec{i}", 1) for i in range(n))
         inner = Fake(rechunk=lambda ch: Fake(kind="rechunked", chunks=ch))
         tr = Fake(array=inner, axes=axes)
-        me = Fake(array=tr, _chunks=specs)
+        me = Fake(array=tr, _chunks=specs, balance=False)  # (balance=True: rechunk_balance instances, on real nodes)
         res = w.method(Rm.Rechunk, "_pushdown_through_transpose")(me)
         if res is None:
             return False
@@ -418,6 +420,68 @@ def inst_validate(mo, mn):
         return sum(old) == sum(new)
 
     return Instance(f"_validate_rechunk[{mo},{mn}]", body, dict(old=mo, new=mn), unit="_validate_rechunk")
+
+
+def inst_balance(kind):
+    """x.rechunk(spec, balance=True) under an element-wise op / a transpose / another rechunk (concrete chunk sizes: balancing is
+    integer statistics of the size list; element values symbolic): the balanced chunks it advertises (oracle: legacy
+    dask.array on the same shapes) are the chunks of the simplified and of the lowered expression too -- the pushdown carries the
+    settled target, not the raw spec -- and the values are unchanged"""
+    def body(E):
+        import operator
+
+        from symx.sarr import same_array
+
+        from . import catalog
+
+        w = catalog.W(E)
+        if kind == "transpose":
+            x = catalog.source(w, E, "x", (5, 2), chunks=[(2, 2, 2, 2, 1), (1, 1)])
+            p = catalog.p_transpose(w, x, (1, 0))
+            spec, shape, legacy_chunks = (2, 4), (2, 9), ((1, 1), (2, 2, 2, 2, 1))
+        else:
+            x = catalog.source(w, E, "x", (5,), chunks=[(2, 2, 2, 2, 1)])
+            p = (catalog.p_elemwise(w, operator.mul, x, 1.0) if kind == "elemwise" else
+                 catalog.p_map(w, x, catalog.plus_one) if kind == "rechunk-rechunk" else x)
+            spec, shape, legacy_chunks = (4,), (9,), ((2, 2, 2, 2, 1),)
+        out = p.node.rechunk(spec, None, None, True, None)
+        if kind == "rechunk-rechunk":
+            # the inner rechunk asks for balance, the outer one does not: the outer target stands as normalised
+            out = out.rechunk(spec, None, None, False, None)
+        import dask.array as legacy
+
+        ref = legacy.empty(shape, chunks=legacy_chunks).rechunk(spec, balance=kind != "rechunk-rechunk").chunks
+        adv = tuple(map(tuple, out.chunks))
+        E.observe("chunks", [list(c) for c in adv])
+        E.ensure("advertises-the-balanced-normalised-spec", adv == tuple(map(tuple, ref)))
+        st = catalog.stages(E, w, out, {"simplified", "lowered"})
+        for stage in ("simplified", "lowered"):
+            E.ensure(f"{stage}-keeps-the-advertised-chunks", tuple(map(tuple, st[stage].chunks)) == adv)
+        for stage in ("materialized", "materialized_off"):
+            m = catalog.stages(E, w, out, {stage})[stage]
+            whole, dsk, r = catalog.run_tree(E, m, out.chunks, stage, check_shapes=True)
+            same_array(E, whole, p.ref, label=f"{stage}-values", skolem=f"p{stage[-1]}")
+
+    def api(values):
+        import warnings
+
+        import dask_array as da
+
+        with warnings.catch_warnings():
+            warnings.simplefilter("ignore")
+            a = np.arange(18).reshape(9, 2) if kind == "transpose" else np.arange(9)
+            x = da.from_array(a, chunks=(2, 1) if kind == "transpose" else 2)
+            if kind == "transpose":
+                y = x.T.rechunk((2, 4), balance=True)
+            elif kind == "rechunk-rechunk":
+                y = x.map_blocks(lambda b: b + 1, dtype=a.dtype).rechunk(4, balance=True).rechunk(4)
+            else:
+                y = ((x * 1) if kind == "elemwise" else x).rechunk(4, balance=True)
+            ok = y.expr.simplify().chunks == y.chunks and y.optimize().chunks == y.chunks
+            return dict(ok=bool(ok), detail=f"advertised {y.chunks}, simplified {y.expr.simplify().chunks}, optimized {y.optimize().chunks}")
+
+    return Instance(f"rechunk_balance[{kind}]", body, dict(kind=kind), unit="Rechunk.chunks (balance) + _pushdown_through_elemwise/_transpose + Rechunk(Rechunk) fusion",
+                    api_replay=api)
 
 
 def inst_rechunk_spec(kind):
@@ -535,6 +599,8 @@ def instances(tier):
         out.append(inst_through_expand(nd, axes))
     for mo, mn in ((1, 2), (2, 2), (3, 1)):
         out.append(inst_validate(mo, mn))
+    for k in ("plain", "elemwise", "transpose", "rechunk-rechunk"):
+        out.append(inst_balance(k))
     for k in ("auto1", "int", "minus1", "tuple", "dict-none") + (() if q else ("dict-auto",)):
         out.append(inst_rechunk_spec(k))
     return out
